@@ -12,6 +12,8 @@
 // admissible sizes must give the same bytes and final chaining state.
 #include "common/vf.hpp"
 #include <openssl/evp.h>
+#include <openssl/bn.h>
+#include <algorithm>
 extern "C" {
 #include "bearssl.h"
 }
@@ -514,6 +516,92 @@ static void run_poly(Tape &t)
 	if (stats.want_sample()) stats.sample(desc);
 }
 
+// Poly1305 with a chosen one-time key: the run functions take the ChaCha20 implementation as a
+// parameter, so a stub that "encrypts" with the key bytes themselves as keystream hands r || s to
+// the MAC.  The last data block is then SOLVED so that the accumulator ends on a chosen value near
+// the prime 2^130 - 5 or near 2^130 (the carry / final-reduction corners random keys reach with
+// probability ~2^-100).  Reference: big-integer Poly1305 (OpenSSL BN).
+static uint32_t stub_chacha(const void *key, const void *iv, uint32_t cc, void *data, size_t len)
+{
+	(void)iv;
+	if (cc == 0) for (size_t u = 0; u < len && u < 32; u++) ((uint8_t *)data)[u] ^= ((const uint8_t *)key)[u];
+	return cc + (uint32_t)((len + 63) >> 6);
+}
+static BIGNUM *le_to_bn(const uint8_t *p, size_t n) { std::vector<uint8_t> be(p, p + n); std::reverse(be.begin(), be.end()); return BN_bin2bn(be.data(), (int)n, nullptr); }
+static void run_poly_constructed(Tape &t)
+{
+	static BN_CTX *bc = BN_CTX_new();
+	BIGNUM *P = BN_new(), *two128 = BN_new(), *two130 = BN_new();
+	BN_one(two128); BN_lshift(two128, two128, 128);
+	BN_one(two130); BN_lshift(two130, two130, 130);
+	BN_copy(P, two130); BN_sub_word(P, 5);
+	// r: small values and random ones, clamped as RFC 7539 says
+	uint8_t rs[32];
+	t.fill(rs, 32);
+	unsigned rk = t.u8() % 6;
+	if (rk < 4) { memset(rs, 0, 16); rs[0] = (uint8_t)(1 + t.u8() % 7); if (rk == 1) rs[4] = 4; if (rk == 2) rs[8] = 0xFC; if (rk == 3) rs[12] = 0xFC; }
+	rs[3] &= 15; rs[7] &= 15; rs[11] &= 15; rs[15] &= 15; rs[4] &= 252; rs[8] &= 252; rs[12] &= 252;
+	BIGNUM *r = le_to_bn(rs, 16), *sv = le_to_bn(rs + 16, 16);
+	if (BN_is_zero(r)) { BN_free(P); BN_free(two128); BN_free(two130); BN_free(r); BN_free(sv); return; }
+	// message: nb full blocks, the last one solved; no aad
+	size_t nb = 1 + t.u8() % 3;
+	std::vector<uint8_t> data = t.filled(nb * 16);
+	// target accumulator value (mod p) after the footer block
+	BIGNUM *T = BN_new();
+	unsigned tk = t.u8() % 8;
+	unsigned small = t.u8() % 12;
+	switch (tk) {
+	case 0: BN_set_word(T, small); break;                                            // 0..11: internal value p+k or 2^130+k
+	case 1: BN_copy(T, P); BN_sub_word(T, 1 + small); break;                          // just below p
+	case 2: BN_set_word(T, 1); BN_lshift(T, T, 26); BN_add_word(T, small); BN_sub_word(T, 6); break;   // around 2^26
+	case 3: BN_set_word(T, 1); BN_lshift(T, T, 52); BN_sub_word(T, small); break;
+	case 4: BN_copy(T, two128); BN_sub_word(T, small); break;
+	case 5: BN_copy(T, two128); BN_add_word(T, small); break;
+	case 6: BN_set_word(T, 1); BN_lshift(T, T, 104); BN_sub_word(T, 1 + small); break;
+	default: BN_set_word(T, 5); BN_lshift(T, T, (int)(small * 10)); break;
+	}
+	BN_nnmod(T, T, P, bc);
+	// acc after block i: (acc + m_i + 2^128) * r.  Footer block F = (0 || len) as LE: aad_len (8 bytes) | len (8 bytes)
+	uint8_t foot[16] = { 0 };
+	{ uint64_t L = nb * 16; for (int i = 0; i < 8; i++) foot[8 + i] = (uint8_t)(L >> (8 * i)); }
+	BIGNUM *F = le_to_bn(foot, 16), *rinv = BN_new(), *acc = BN_new(), *x = BN_new(), *m = BN_new();
+	BN_mod_inverse(rinv, r, P, bc);
+	BN_zero(acc);
+	for (size_t i = 0; i + 1 < nb; i++) { BIGNUM *mi = le_to_bn(data.data() + 16 * i, 16); BN_add(acc, acc, mi); BN_add(acc, acc, two128); BN_mod_mul(acc, acc, r, P, bc); BN_free(mi); }
+	// want ((acc + m + 2^128) * r + F + 2^128) * r = T  =>  m = ((T * rinv - F - 2^128) * rinv - 2^128 - acc) mod p
+	BN_mod_mul(x, T, rinv, P, bc); BN_sub(x, x, F); BN_sub(x, x, two128); BN_nnmod(x, x, P, bc);
+	BN_mod_mul(x, x, rinv, P, bc); BN_sub(x, x, two128); BN_sub(x, x, acc); BN_nnmod(m, x, P, bc);
+	bool fits = BN_cmp(m, two128) < 0;
+	if (fits) {
+		uint8_t be[16];
+		BN_bn2binpad(m, be, 16);
+		for (int i = 0; i < 16; i++) data[16 * (nb - 1) + (size_t)i] = be[15 - i];
+	}
+	// reference tag over the final data (whether or not the target was met)
+	BN_zero(acc);
+	for (size_t i = 0; i < nb; i++) { BIGNUM *mi = le_to_bn(data.data() + 16 * i, 16); BN_add(acc, acc, mi); BN_add(acc, acc, two128); BN_mod_mul(acc, acc, r, P, bc); BN_free(mi); }
+	BN_add(acc, acc, F); BN_add(acc, acc, two128); BN_mod_mul(acc, acc, r, P, bc);
+	BN_add(acc, acc, sv);
+	BN_mask_bits(acc, 128);
+	uint8_t want[16], be[16];
+	BN_bn2binpad(acc, be, 16);
+	for (int i = 0; i < 16; i++) want[i] = be[15 - i];
+	std::string desc = fmt("poly1305 with chosen one-time key (r class %u), %zu block(s), accumulator target class %u+%u%s", rk, nb, tk, small, fits ? "" : " (not reachable with a 16-byte block: random last block)");
+	uint8_t iv[12] = { 0 };
+	for (auto &im : poly_impls) {
+		const char *impl = im.name;
+		// decrypt direction: the MAC is computed over the data as given, then the stub "decrypts" (discarded)
+		Exact d(data);
+		uint8_t tag[16];
+		memset(tag, 0x5A, 16);
+		im.f(rs, iv, d.get(), data.size(), nullptr, 0, tag, stub_chacha, 0);
+		VF_CHECK(memcmp(tag, want, 16) == 0, "%s: tag %s, big-integer reference %s [%s]", desc.c_str(), hex(tag, 16).c_str(), hex(want, 16).c_str(), impl);
+	}
+	stats.cls(fits ? "poly1305-constructed" : "poly1305-chosen-key");
+	stats.eval(fmt("polyc/%u/%zu/%u/%u/%d", rk, nb, tk, small, (int)fits));
+	BN_free(P); BN_free(two128); BN_free(two130); BN_free(r); BN_free(sv); BN_free(T); BN_free(F); BN_free(rinv); BN_free(acc); BN_free(x); BN_free(m);
+}
+
 static void run_ghash(Tape &t)
 {
 	std::vector<uint8_t> h = t.filled(16), y0 = t.filled(16);
@@ -551,10 +639,11 @@ static void run_ghash(Tape &t)
 
 void target_run(Tape &t)
 {
-	unsigned prim = t.u8() % 9;
+	unsigned prim = t.u8() % 10;
 	if (prim < 6) run_aes_des(t, prim);
 	else if (prim == 6) run_chacha(t);
 	else if (prim == 7) run_poly(t);
+	else if (prim == 9) run_poly_constructed(t);
 	else run_ghash(t);
 }
 
